@@ -2,7 +2,9 @@
 //! harness from the shipped JSON / RON files (no library code involved).
 use std::collections::HashMap;
 
-const DIR: &str = "/repo/physics/data/calibration";
+fn dir() -> String {
+    format!("{}/physics/data/calibration", crate::core::repo_root())
+}
 
 fn parse_ron(path: &str, tuple: bool) -> HashMap<(usize, usize), f64> {
     let s = std::fs::read_to_string(path).unwrap();
@@ -52,6 +54,7 @@ pub struct Calib {
 
 pub fn load(run: u32) -> Calib {
     let sim = run == u32::MAX;
+    let d = dir();
     let round = |m: HashMap<usize, f64>| m.into_iter().map(|(k, v)| (k, v.round() as i16)).collect::<HashMap<_, _>>();
     let roundp = |m: HashMap<(usize, usize), f64>| m.into_iter().map(|(k, v)| (k, v.round() as i16)).collect::<HashMap<_, _>>();
     let wb = if sim { Some("simulation_complete.json") } else if run >= 7026 { Some("7026_complete.json") } else { None };
@@ -62,11 +65,11 @@ pub fn load(run: u32) -> Calib {
         run,
         wire_map: sim || run >= 2941,
         pad_map: sim || run >= 4418,
-        wire_baseline: wb.map(|f| round(parse_json_wires(&format!("{DIR}/wires/baseline/{f}"), true))),
-        wire_gain: wg.map(|f| parse_json_wires(&format!("{DIR}/wires/gain/{f}"), false)),
+        wire_baseline: wb.map(|f| round(parse_json_wires(&format!("{d}/wires/baseline/{f}"), true))),
+        wire_gain: wg.map(|f| parse_json_wires(&format!("{d}/wires/gain/{f}"), false)),
         wire_delay: if sim { Some(100) } else if run >= 7000 { Some(129) } else { None },
-        pad_baseline: pb.map(|f| roundp(parse_ron(&format!("{DIR}/pads/baseline/{f}"), true))),
-        pad_gain: pg.map(|f| parse_ron(&format!("{DIR}/pads/gain/{f}"), false)),
+        pad_baseline: pb.map(|f| roundp(parse_ron(&format!("{d}/pads/baseline/{f}"), true))),
+        pad_gain: pg.map(|f| parse_ron(&format!("{d}/pads/gain/{f}"), false)),
         pad_delay: if sim { Some(100) } else if run >= 7000 { Some(115) } else { None },
     }
 }
